@@ -236,7 +236,11 @@ def coq_properties(pid, timeout=1500):
         src = open(pf).read()
         nocom = re.sub(r"\(\*.*?\*\)", "", src, flags=re.S)
         theorems = re.findall(r"^\s*(?:Theorem|Lemma|Corollary|Example)\s+([A-Za-z0-9_']+)", nocom, flags=re.M)
-        forb = scan_forbidden(coq_closure("Properties_%s" % pid))
+        closure = coq_closure("Properties_%s" % pid)
+        forb = scan_forbidden(closure)
+        # a regenerated table this property depends on could not be regenerated = broken obligation
+        forb += ["gen/%s not regenerated from %s/src: %s" % (g, REPO, e) for g, e in sorted(TRANSLATE_FAILED.items())
+                 if "gen/" + g in closure]
         # force re-check of the property file itself so that its output (Print Assumptions) is seen
         for ext in (".vo", ".vok", ".vos", ".glob"):
             try:
@@ -272,10 +276,12 @@ def regenerate_tables():
     """R-gen: rewrite coq/gen/*.v from /repo/src (only when content changed)."""
     sys.path.insert(0, os.path.join(ROOT, "tools"))
     import translate
-    try:
-        translate.run(REPO, os.path.join(COQ, "gen"))
-    except Exception as e:   # a translator that no longer understands the source = broken obligation
-        raise BuildError("table translation from %s/src failed: %r" % (REPO, e))
+    global TRANSLATE_FAILED
+    TRANSLATE_FAILED = translate.run(REPO, os.path.join(COQ, "gen")) or {}
+    return TRANSLATE_FAILED
+
+
+TRANSLATE_FAILED = {}   # gen file -> error, for translators that no longer understand the source
 
 
 def ocaml_driver(fam, timeout=900):
